@@ -719,7 +719,7 @@ def positional_order(chk, rule, quals):
                derived="now (%s)" % ", ".join(cur), loc=fi.loc(), nontrivial=False)
 
 
-def libns_for(chk, rule, quals):
+def libns_for(chk, rule, quals, only_roots=None):
     """Every NumPy / SciPy name referenced by the given (anchored) functions exists in the installed library -- resolved from the installed
     package's stubs / sources by sa/libns.py, nothing is imported or run.  A name the installed library does not export raises
     AttributeError on every call that reaches it: whatever the function is stated to compute, it computes nothing."""
@@ -742,7 +742,11 @@ def libns_for(chk, rule, quals):
                 if r and r[0] == "lib":
                     seen.setdefault(r[1], n)
         keep = [n for n in seen if not any(o != n and o.startswith(n + ".") for o in seen)]
+        done = chk.__dict__.setdefault("_libns_done", set())
         for name in sorted(keep):
+            if (q, name) in done or (only_roots and name.split(".")[0] not in only_roots):
+                continue
+            done.add((q, name))
             ex = libns.exists(name)
             n_ob += 1
             chk.ob(rule, "%s:%s{%s}" % (fi.module.relpath, q.split(".", 1)[1], name), "%s exists in the installed library" % name, ex is True,
